@@ -121,6 +121,13 @@ class DomainParser:
 
             same_type_constants.append(constant_name)
 
+        # constants that are not followed by a type are of the root type.
+        constants.update(
+            {
+                name: PDDLConstant(name, domain_types.get(ObjectType.name, ObjectType))
+                for name in same_type_constants
+            }
+        )
         self.logger.debug(f"Extracted {len(constants)} from the domain.")
         return constants
 
